@@ -398,7 +398,7 @@ RateDue(s, t, p, d) ==
    integer whenever the pool total divides EntD (all totals <= 10 do). *)
 EntD == 2520
 
-GhostInit == [entD |-> EmptyF, entOK |-> EmptyF, released |-> EmptyF, refunded |-> EmptyF, refunds |-> EmptyF,
+GhostInit == [funded |-> EmptyF, entD |-> EmptyF, entOK |-> EmptyF, released |-> EmptyF, refunded |-> EmptyF, refunds |-> EmptyF,
               paid |-> EmptyF, touches |-> EmptyF, maxLocked |-> EmptyF,
               updates |-> EmptyF]
 
@@ -411,7 +411,13 @@ GhostStep(g, s, e, t) ==
       refStep(p, d) == IF p \in ref THEN Drop(s, t, p, d) - RateDue(s, t, p, d) ELSE 0
       relStep(p, d) == Drop(s, t, p, d) - refStep(p, d)
   IN
-  [entD |-> [p \in ps |-> [f \in UsersOf(t) |-> [d \in DOMAIN t.pools[p].rules |->
+  [funded |-> [p \in ps |-> [d \in DOMAIN t.pools[p].rules |->
+                 \* what the creator actually paid in: the event's coins, when it succeeded
+                 IF p \notin DOMAIN s.pools
+                 THEN (IF e.name = "CreatePool" /\ e.ok THEN Amt(e.total, d) ELSE 0)
+                 ELSE old(g.funded, p, ZeroR(t, p))[d]
+                      + (IF e.name = "AdjustPool" /\ e.ok /\ e.pool = p THEN Amt(e.total, d) ELSE 0)]],
+   entD |-> [p \in ps |-> [f \in UsersOf(t) |-> [d \in DOMAIN t.pools[p].rules |->
                    (IF p \in DOMAIN g.entD THEN g.entD[p][f][d] ELSE 0)
                    + (IF p \in DOMAIN s.pools /\ s.pools[p].total > 0
                          /\ EntD % s.pools[p].total = 0
@@ -505,6 +511,17 @@ C06_Budget(t, g) ==
     t.pools[p].rules[d].totalR =
       t.pools[p].rules[d].remaining + g.released[p][d] + g.refunded[p][d]
 
+(* C06: "the budget funded by the creator": the recorded total budget is what
+   the creator actually paid in (creation + accepted top-ups) *)
+C06_Funded(t, g) ==
+  \A p \in DOMAIN t.pools : \A d \in DOMAIN t.pools[p].rules :
+    g.funded[p][d] = t.pools[p].rules[d].totalR
+
+(* C06: an accepted change of the reward per block is the rate from then on *)
+C06_AdjustApplies(s, e, t) ==
+  (e.name = "AdjustPool" /\ e.ok) =>
+    \A d \in DOMAIN e.rpb : t.pools[e.pool].rules[d].rpb = e.rpb[d]
+
 (* C06: the money actually moved: what left the budgets went to the
    collector (released) or to the creators (refunded), and top-ups were paid *)
 C06_Flows(s, e, t) ==
@@ -582,6 +599,13 @@ C13_QueueComplete(t, g) ==
   \A p \in DOMAIN t.pools :
     (g.refunds[p] = 0) <=> (<<t.pools[p].end, p>> \in t.queue)
 C13_NoHalt(e) == ~e.halt
+(* each pool is processed by the end-blocker exactly at its end height, once *)
+C13_OnceOnTime(s, e, t, g) ==
+  /\ \A p \in DOMAIN t.pools : g.refunds[p] <= 1
+  /\ (e.name = "EndBlock") =>
+       /\ \A p \in RefundedIn(s, e, t) : s.pools[p].end = s.h
+       /\ \A p \in DOMAIN s.pools :
+            (<<s.h, p>> \in s.queue) => p \in RefundedIn(s, e, t)
 
 -----------------------------------------------------------------------------
 (* Model-checking universe *)
@@ -666,6 +690,7 @@ GenConstraint ==
 Inv_C05_StakeSum == C05_StakeSum(st)
 Inv_C05_Escrow == C05_Escrow(st)
 Inv_C06_Budget == C06_Budget(st, gh)
+Inv_C06_Funded == C06_Funded(st, gh)
 Inv_C06_Covered == C06_Covered(st, gh)
 Inv_C06_ProRata == C06_ProRata(st, gh)
 Inv_C13_QueueSound == C13_QueueSound(st)
@@ -683,8 +708,10 @@ Act_C05_StakeExact == [][C05_StakeExact(st, ev', st')]_vars
 Act_C05_OthersUntouched == [][C05_OthersUntouched(st, ev', st')]_vars
 Act_Rejected_NoEffect == [][Rejected_NoEffect(st, ev', st')]_vars
 Act_C06_Flows == [][C06_Flows(st, ev', st')]_vars
+Act_C06_AdjustApplies == [][C06_AdjustApplies(st, ev', st')]_vars
 Act_C06_Rate == [][C06_Rate(st, ev', st')]_vars
 Act_C06_RefundOnce == [][C06_RefundOnce(st, ev', st', gh')]_vars
+Act_C13_OnceOnTime == [][C13_OnceOnTime(st, ev', st', gh')]_vars
 
 (* VIEW for the exhaustive configs: the ghosts and the last event are functions
    of the path, not of the state; clauses over them are action properties or
